@@ -231,6 +231,10 @@ fn mark_module(heap: &mut Heap, module: &Module<Arc<Type>>) {
     for m in toplevel.members_iter() {
       mark_id(heap, &m.name);
       mark_type_parameters(heap, m.type_parameters.as_ref());
+      for parameter in m.parameters.parameters.iter() {
+        mark_id(heap, &parameter.name);
+        mark_annot(heap, &parameter.annotation);
+      }
       mark_annot(heap, &m.return_type);
     }
     if let Toplevel::Class(c) = toplevel {
